@@ -22,6 +22,12 @@ def main():
         print("patch does not apply:", r.stdout)
         return 2
     results = {}
+    # the evidence files describe the UNCHANGED tree: keep them, and put them back afterwards
+    saved = {}
+    for c in checks:
+        ev = os.path.join(VERIF, "evidence", c + ".json")
+        if os.path.exists(ev):
+            saved[ev] = open(ev).read()
     try:
         for c in checks:
             t0 = time.time()
@@ -42,6 +48,9 @@ def main():
     finally:
         sh("git -C %s checkout -- . && git -C %s clean -fdq -- nutype nutype_macros test_suite examples" % (REPO, REPO))
         sh("rm -rf %s/replays" % VERIF)
+        for ev, txt in saved.items():
+            with open(ev, "w") as f:
+                f.write(txt)
     print(json.dumps(results, indent=1))
     return 0
 
